@@ -32,6 +32,7 @@ R0_0 == {0}
 R0_01 == {0, 1}
 R0_012 == {0, 1, 2}
 R0_12 == {1, 2}
+R0_2 == {2}
 R0_1 == {1}
 R0_123 == {1, 2, 3}
 
